@@ -11,7 +11,7 @@ Two semantics-preserving CFG transformations on the JSON facts of one crate:
 Both are exact (modulo unwinding, which no rule looks at): nothing is approximated, so a defect hidden inside a new helper or closure is still seen, at
 the place where it executes. Known functions and the closures of the reference tree (KNOWN_CLOSURE_USES) are left alone because rules name them.
 """
-import copy, json, os
+import copy, json, os, re
 
 HERE = os.path.dirname(os.path.abspath(__file__))
 KNOWN_FILE = os.path.join(os.path.dirname(HERE), "specs", "known_fns.json")
@@ -25,6 +25,8 @@ def load_known():
         d = json.load(open(KNOWN_FILE))
         global KNOWN_ORPAT
         KNOWN_ORPAT = set(d.get("or_pattern_fns", []))
+        global KNOWN_MATCHVAL
+        KNOWN_MATCHVAL = set(d.get("match_value_fns", []))
         global PLAIN_COLLECTS, PLAIN_EXTENDS
         PLAIN_COLLECTS = set(d.get("plain_collects", []))
         PLAIN_EXTENDS = set(d.get("plain_extends", []))
@@ -35,6 +37,7 @@ def load_known():
 
 PLAIN_EXTENDS = set()  # functions of the reference tree that call Extend::extend (the rules read those as written)
 PLAIN_COLLECTS = set()  # functions of the reference tree that call collect() directly on a closure-free iterator
+KNOWN_MATCHVAL = set()  # likewise for matches whose arms bind out of different variants and meet again
 KNOWN_ORPAT = set()  # functions of the reference tree that bind variables in or-patterns: their merged shape is what the rules were written against
 
 
@@ -138,7 +141,7 @@ def splice(cb, gb, arg_rvalues, dest, target, loc):
 
 ITER = "std::iter::Iterator::"
 STAGES = ("map", "filter", "filter_map", "inspect", "flat_map", "flatten")
-SINKS = ("collect", "any", "all", "for_each", "extend", "find", "find_map")
+SINKS = ("collect", "any", "all", "for_each", "extend", "find", "find_map", "last")
 
 COLLECTIONS = (
     ("std::vec::Vec<", "std::vec::Vec::<T>::new", "std::vec::Vec::<T, A>::push"),
@@ -465,6 +468,8 @@ def desugar_body(b, bodies, known_uses, log):
             if sink == "collect":
                 blk["term"] = call(fn_operand(coll[1], []), [], P(acc_l, ty=coll[0]), first_bb, loc)
             else:
+                if sink == "last":
+                    blk["stmts"].append(assign(copy.deepcopy(dest), adt_agg("std::option::Option", "None", 0, []), loc))
                 blk["term"] = goto(first_bb)
 
             def run_fn(cur_bb, sf, arg_rvs, res_ty):
@@ -606,6 +611,11 @@ def desugar_body(b, bodies, known_uses, log):
                     b["blocks"][cur_bb]["term"] = {"k": "switch", "d": mv(d2), "dty": "isize", "ts": [[0, skip], [1, hit]], "else": un2}
                     none_stmt(assign(copy.deepcopy(dest), adt_agg("std::option::Option", "None", 0, []), loc))
                     b["blocks"][none]["term"] = goto(cont)
+                elif sink == "last":
+                    # every element overwrites what is remembered: after exhaustion the last one is left (None for an empty source)
+                    b["blocks"][cur_bb]["stmts"].append(assign(copy.deepcopy(dest), adt_agg("std::option::Option", "Some", 1, [mv(e_l, ety)]), loc))
+                    b["blocks"][cur_bb]["term"] = goto(skip)
+                    b["blocks"][none]["term"] = goto(cont)
                 else:  # for_each
                     res, cur_bb = run_fn(cur_bb, sink_f, [use(mv(e_l, ety))], "()")
                     b["blocks"][cur_bb]["term"] = goto(skip)
@@ -636,6 +646,243 @@ OPT_COMB = ("map", "map_or", "map_or_else", "and_then", "is_some_and", "is_none_
 
 def opt_agg(variant, ops):
     return {"k": "agg", "ak": "adt", "adt": "std::option::Option", "variant": variant, "vi": 1 if variant == "Some" else 0, "ops": ops}
+
+
+RETAIN = ("std::vec::Vec::<T, A>::retain", "std::collections::HashSet::<T, S, A>::retain", "std::collections::HashSet::<T, S>::retain",
+          "std::collections::BTreeSet::<T, A>::retain")
+
+
+def desugar_retain(b, bodies, known_uses, log):
+    """`c.retain(|x| keep(x))` on a local Vec / set outside every loop: the elements are taken out and those for which the closure holds are put into
+    a new collection, in order; later uses of `c` mean the new one. Written as that loop (closure spliced in)."""
+    used = set()
+    for _round in range(8):
+        did = False
+        for bi, blk in enumerate(b["blocks"]):
+            t = blk["term"]
+            if not t or t["k"] != "call" or blk.get("cleanup") or t.get("t") is None or len(t["args"]) != 2:
+                continue
+            fn = callee_of(t)
+            if fn is None or fn["path"] not in RETAIN:
+                continue
+            if known_uses is not None and (b["path"], fn["path"]) in known_uses:
+                continue
+            r = t["args"][0]
+            if r["k"] not in ("move", "copy") or r["p"]["pr"]:
+                continue
+            d = single_def(b, r["p"]["l"])
+            if not (d and d[0] == "rv" and d[3]["k"] == "ref" and not d[3]["p"]["pr"]):
+                continue
+            L = d[3]["p"]["l"]
+            cty = b["locals"][L]["ty"]
+            coll = collection_of(cty)
+            sf = stage_fn(b, t["args"][1], bodies)
+            if coll is None or coll[3] != 1 or sf is None or sf[0] != "closure" or L <= b["arg_count"]:
+                continue
+            cont = t["t"]
+            region = dominated(b, cont)
+            if bi in region or cont not in region:
+                continue  # inside a loop: the collection of the next round is the filtered one
+            # every later mention of the collection must be behind the continuation
+            reach, work = set(), [cont]
+            while work:
+                x = work.pop()
+                if x in reach or b["blocks"][x].get("cleanup") or b["blocks"][x]["term"] is None:
+                    continue
+                reach.add(x)
+                work += succs(b["blocks"][x])
+            bad = False
+            for x in reach - set(region):
+                acc = set()
+                locals_in(b["blocks"][x]["stmts"], acc)
+                locals_in(b["blocks"][x]["term"], acc)
+                if L in acc:
+                    bad = True
+            if bad:
+                continue
+            loc = blk["tloc"]
+            pty = fn_param_ty(sf, 0)
+            ety = pty[1:].lstrip() if pty.startswith("&") else "?"
+            ity = normalise_assoc("<%s as std::iter::IntoIterator>::IntoIter" % cty)
+            N = new_local(b, cty, b["locals"][L].get("name"))
+            it_l = new_local(b, ity, "iter")
+            opt_l = new_local(b, "std::option::Option<%s>" % ety)
+            ref_l = new_local(b, "&mut " + ity)
+            d_l = new_local(b, "isize")
+            e_l = new_local(b, ety)
+            re_l = new_local(b, "&" + ety)
+            res = new_local(b, "bool")
+            ra = new_local(b, "&mut " + cty)
+            ig = new_local(b, "()")
+            head = new_block(b, [], None, loc)
+            sw = new_block(b, [], None, loc)
+            unreach = new_block(b, [], {"k": "unreachable"}, loc)
+            some = new_block(b, [], None, loc)
+            test = new_block(b, [], None, loc)
+            keep = new_block(b, [], None, loc)
+            mk_it = new_block(b, [], None, loc)
+            blk["term"] = call(fn_operand(coll[1], []), [], P(N, ty=cty), mk_it, loc)
+            b["blocks"][mk_it]["term"] = call(fn_operand("std::iter::IntoIterator::into_iter", [cty], trait="std::iter::IntoIterator", self_ty=cty), [mv(L, cty)], P(it_l, ty=ity), head, loc)
+            b["blocks"][head]["stmts"] = [assign(P(ref_l), {"k": "ref", "mut": True, "fake": False, "p": P(it_l, ty=ity)}, loc)]
+            b["blocks"][head]["term"] = call(fn_operand(ITER + "next", [ity], trait="std::iter::Iterator", self_ty=ity), [mv(ref_l)], P(opt_l), sw, loc)
+            b["blocks"][sw]["stmts"] = [assign(P(d_l), {"k": "discr", "p": P(opt_l, ty="std::option::Option<%s>" % ety)}, loc)]
+            b["blocks"][sw]["term"] = {"k": "switch", "d": mv(d_l), "dty": "isize", "ts": [[0, cont], [1, some]], "else": unreach}
+            b["blocks"][some]["stmts"] = [assign(P(e_l, ty=ety), use({"k": "move", "p": P(opt_l, [{"dc": "Some"}, {"f": 0, "n": "0"}], ety)}), loc),
+                                          assign(P(re_l), {"k": "ref", "mut": False, "fake": False, "p": P(e_l, ty=ety)}, loc)]
+            g, cl_op = sf[1], sf[2]
+            pro, entry = splice(b, g, [env_rvalue(g, cl_op), use(mv(re_l))], P(res, ty="bool"), test, loc)
+            b["blocks"][some]["stmts"] += pro
+            b["blocks"][some]["term"] = goto(entry)
+            used.add(g["path"])
+            b["blocks"][test]["term"] = {"k": "switch", "d": mv(res, "bool"), "dty": "bool", "ts": [[0, head]], "else": keep}
+            b["blocks"][keep]["stmts"] = [assign(P(ra), {"k": "ref", "mut": True, "fake": False, "p": P(N, ty=cty)}, loc)]
+            b["blocks"][keep]["term"] = call(fn_operand(coll[2], []), [mv(ra), mv(e_l, ety)], P(ig), head, loc)
+            for x in region:
+                nb = rename(b["blocks"][x], {L: N}, {})
+                b["blocks"][x]["stmts"], b["blocks"][x]["term"] = nb["stmts"], nb["term"]
+            log.append("%s: retain with a closure written as a loop that rebuilds the collection" % b["path"])
+            did = True
+            break
+        if not did:
+            break
+    return used
+
+
+LAZY_CELLS = ("std::sync::OnceLock::<T>::", "std::cell::OnceCell::<T>::")
+
+
+def static_of_operand(b, o):
+    """the static item an operand refers to (`&STATIC`, possibly through a reborrow), or None"""
+    for _ in range(4):
+        if o["k"] == "const":
+            return o.get("static")
+        if o["k"] not in ("move", "copy") or o["p"]["pr"]:
+            return None
+        d = single_def(b, o["p"]["l"])
+        if d is None or d[0] != "rv":
+            return None
+        rv = d[3]
+        if rv["k"] == "use":
+            o = rv["o"]
+        elif rv["k"] == "ref" and rv["p"]["pr"] == ["deref"]:
+            o = {"k": "copy", "p": {"l": rv["p"]["l"], "pr": []}}
+        else:
+            return None
+    return None
+
+
+def lazy_statics(data, bodies, log):
+    """`static RE: OnceLock<T> = OnceLock::new(); .. RE.get_or_init(|| expr)` with a closure that captures nothing: a constant computed on first use.
+    Every use denotes `&expr` (the closure has no inputs), so the call is written as that; the statics all of whose uses are of this form are listed
+    in data['lazy_statics'] (R15.globals accepts exactly those)"""
+    cands = {}
+    for b in data["bodies"]:
+        if str(b.get("kind", "")).startswith("Static") and not b.get("derived"):
+            calls = [blk["term"] for blk in b["blocks"] if not blk.get("cleanup") and blk["term"] and blk["term"]["k"] == "call"]
+            if len(calls) == 1 and (callee_of(calls[0]) or {}).get("path") in [p + "new" for p in LAZY_CELLS] and not calls[0]["args"]:
+                cands[b["path"]] = 0
+    if not cands:
+        return set()
+    used = set()
+    other = set()
+    for b in data["bodies"]:
+        if b.get("derived") or str(b.get("kind", "")).startswith("Static"):
+            continue
+        for bi in range(len(b["blocks"])):
+            blk = b["blocks"][bi]
+            t = blk["term"]
+            if blk.get("cleanup") or not t or t["k"] != "call" or t.get("t") is None:
+                continue
+            fn = callee_of(t)
+            if fn is None or fn["path"] not in [p + "get_or_init" for p in LAZY_CELLS] or len(t["args"]) != 2:
+                continue
+            st = static_of_operand(b, t["args"][0])
+            g = closure_of_operand(b, t["args"][1], bodies)
+            if st not in cands or g is None or g["arg_count"] != 1:
+                continue
+            d = single_def(b, t["args"][1]["p"]["l"])
+            if d is None or d[3].get("ops"):
+                continue  # the closure captures something: its value may differ from one first use to another
+            loc = blk["tloc"]
+            dest, cont = t["dest"], t["t"]
+            rty = fn_ret_ty(("closure", g))
+            res = new_local(b, rty)
+            after = new_block(b, [assign(copy.deepcopy(dest), {"k": "ref", "mut": False, "fake": False, "p": P(res, ty=rty)}, loc)], goto(cont), loc)
+            pro, entry = splice(b, g, [env_rvalue(g, t["args"][1])], P(res, ty=rty), after, loc)
+            blk["stmts"] += pro
+            blk["term"] = goto(entry)
+            used.add(g["path"])
+            cands[st] += 1
+            # the reference to the static that fed the call is dead now
+            o = t["args"][0]
+            for _ in range(4):
+                if o["k"] != "move" and o["k"] != "copy":
+                    break
+                dd = single_def(b, o["p"]["l"])
+                if dd is None or dd[0] != "rv":
+                    break
+                rv = dd[3]
+                nxt = rv["o"] if rv["k"] == "use" else ({"k": "copy", "p": {"l": rv["p"]["l"], "pr": []}} if rv["k"] == "ref" else None)
+                b["blocks"][dd[1]]["stmts"][dd[2]] = {"k": "nop", "loc": b["blocks"][dd[1]]["stmts"][dd[2]].get("loc")}
+                if nxt is None or nxt["k"] == "const":
+                    break
+                o = nxt
+            log.append("%s: %s.get_or_init(closure without captures) written as the closure's value" % (b["path"], st.rsplit("::", 1)[-1]))
+    # any remaining mention of the static (another accessor, a `set`, ..) disqualifies it
+
+    def scan(x):
+        if isinstance(x, dict):
+            if x.get("k") == "const" and x.get("static"):
+                other.add(x["static"])
+            for v in x.values():
+                scan(v)
+        elif isinstance(x, list):
+            for v in x:
+                scan(v)
+    for b in data["bodies"]:
+        if b["path"] in used:
+            continue
+        scan(b["blocks"])
+    data["lazy_statics"] = sorted(p for p, n_ in cands.items() if n_ > 0 and p not in other)
+    return used
+
+
+def never_returns(g):
+    """no path from the entry of this body reaches its return (it always ends in a panic / abort / endless loop)"""
+    seen, work = set(), [0]
+    while work:
+        i = work.pop()
+        if i in seen or i >= len(g["blocks"]):
+            continue
+        seen.add(i)
+        blk = g["blocks"][i]
+        if blk.get("cleanup") or blk["term"] is None:
+            continue
+        if blk["term"]["k"] == "return":
+            return False
+        work += succs(blk)
+    return True
+
+
+def diverging_unwrap_or_else(b, bodies, log):
+    """`x.unwrap_or_else(|..| panic!(..))`: the closure never produces a value, so this is `x.expect(..)` with a message computed on demand
+    (what clippy's expect_fun_call asks for); written as the expect it stands for"""
+    for blk in b["blocks"]:
+        t = blk["term"]
+        if not t or t["k"] != "call" or blk.get("cleanup") or t.get("t") is None or len(t["args"]) != 2:
+            continue
+        fn = callee_of(t)
+        if fn is None or fn["path"] not in (OPT + "unwrap_or_else", RES + "unwrap_or_else"):
+            continue
+        g = closure_of_operand(b, t["args"][1], bodies)
+        if g is None or not never_returns(g):
+            continue
+        path = fn["path"][: -len("unwrap_or_else")] + "expect"
+        fn2 = dict(fn)
+        fn2.update({"path": path, "name": "expect", "resolved": path, "gargs": list(fn.get("gargs") or [])[: (1 if path.startswith(OPT) else 2)]})
+        t["f"] = {"k": "const", "ty": "fn {%s}" % path, "disp": path, "fn": fn2}
+        t["args"] = [t["args"][0], {"k": "const", "ty": "&str", "disp": "\"<message built by the closure>\""}]
+        log.append("%s: unwrap_or_else with a closure that only panics written as expect" % b["path"])
 
 
 def desugar_option_combinators(b, bodies, known_uses, log):
@@ -970,6 +1217,101 @@ def reaches_itself(path, bodies, limit=200, known=None):
     return False
 
 
+INTO_ITER = (("std::collections::HashSet<", "std::collections::hash_set::IntoIter<", "std::collections::hash_set::Iter<'_, "),
+             ("std::collections::HashMap<", "std::collections::hash_map::IntoIter<", "std::collections::hash_map::Iter<'_, "),
+             ("std::collections::BTreeSet<", "std::collections::btree_set::IntoIter<", "std::collections::btree_set::Iter<'_, "),
+             ("std::collections::BTreeMap<", "std::collections::btree_map::IntoIter<", "std::collections::btree_map::Iter<'_, "),
+             ("std::collections::VecDeque<", "std::collections::vec_deque::IntoIter<", "std::collections::vec_deque::Iter<'_, "),
+             ("std::vec::Vec<", "std::vec::IntoIter<", "std::slice::Iter<'_, "))
+
+
+def _first_arg(inner):
+    depth = 0
+    for i, ch in enumerate(inner):
+        if ch in "<([":
+            depth += 1
+        elif ch in ">)]":
+            depth -= 1
+        elif ch == "," and depth == 0:
+            return inner[:i]
+    return inner
+
+
+def normalise_assoc(ty):
+    """`<C as IntoIterator>::IntoIter` for the std collections (what the compiler would have printed had the type been known when the helper was compiled)"""
+    marker = " as std::iter::IntoIterator>::IntoIter"
+    for _ in range(8):
+        j = ty.find(marker)
+        if j < 0:
+            break
+        # the matching '<' of this projection
+        depth, i = 0, j - 1
+        while i >= 0:
+            if ty[i] in ">)]":
+                depth += 1
+            elif ty[i] in "<([":
+                if depth == 0:
+                    break
+                depth -= 1
+            i -= 1
+        if i < 0:
+            break
+        x = ty[i + 1:j]
+        ref = x.startswith("&")
+        base = re.sub(r"^&('\w+ )?(mut )?", "", x).strip() if ref else x
+        rep = None
+        for (coll, owned, borrowed) in INTO_ITER:
+            if base.startswith(coll):
+                inner = base[len(coll):-1]
+                if coll.endswith(("HashSet<", "BTreeSet<", "VecDeque<", "Vec<")):
+                    inner = _first_arg(inner)
+                elif coll.endswith(("HashMap<", "BTreeMap<")):
+                    k = _first_arg(inner)
+                    inner = k + ", " + _first_arg(inner[len(k) + 1:].strip())
+                rep = (borrowed if ref else owned) + inner + ">"
+        if rep is None and ref and base.startswith("["):
+            rep = "std::slice::Iter<'_, " + base[1:-1] + ">"
+        if rep is None and ("Iter<" in base or base.startswith(("std::iter::", "core::iter::", "std::fs::ReadDir"))):
+            rep = base  # an iterator is its own IntoIter
+        if rep is None:
+            break
+        ty = ty[:i] + rep + ty[j + len(marker):]
+    return ty
+
+
+def instantiate(b, loff, boff, mapping):
+    """the spliced copy of a generic helper: its type parameters are replaced by the call site's arguments in every type that is printed"""
+    pats = [(re.compile(r"(?<![\w:'])%s(?![\w:])" % re.escape(k)), v) for k, v in mapping.items()]
+
+    def sub(t):
+        if not isinstance(t, str):
+            return t
+        for (rx, v) in pats:
+            t = rx.sub(lambda _m: v, t)
+        return normalise_assoc(t)
+
+    def walk(x):
+        if isinstance(x, list):
+            for v in x:
+                walk(v)
+        elif isinstance(x, dict):
+            for key, v in list(x.items()):
+                if key == "ty" and isinstance(v, str):
+                    x[key] = sub(v)
+                elif key == "fn" and isinstance(v, dict):
+                    if isinstance(v.get("gargs"), list):
+                        v["gargs"] = [sub(g_) for g_ in v["gargs"]]
+                    if isinstance(v.get("self_ty"), str):
+                        v["self_ty"] = sub(v["self_ty"])
+                else:
+                    walk(v)
+    for l in b["locals"][loff:]:
+        l["ty"] = sub(l["ty"])
+        if isinstance(l.get("tt"), dict) and l["tt"].get("param") in mapping:
+            l["tt"] = {"other": l["ty"]}
+    walk(b["blocks"][boff:])
+
+
 def inline_unknown(data, bodies, known, log):
     unknown = [p for p, g in bodies.items() if p not in known and not is_closure(g) and g.get("kind") in ("Fn", "AssocFn") and not g.get("derived")
                and not reaches_itself(p, bodies, known=known)]
@@ -990,7 +1332,16 @@ def inline_unknown(data, bodies, known, log):
                     if b["blocks"][bi].get("cleanup"):
                         continue
                     loc = b["blocks"][bi]["tloc"]
+                    loff, boff = len(b["locals"]), len(b["blocks"])
                     pro, entry = splice(b, g, [use(copy.deepcopy(a)) for a in t["args"]], t["dest"], t["t"], loc)
+                    gen = [x for x in (g.get("generics") or [])]
+                    if gen and len(gen) == len(fn.get("gargs") or []):
+                        mapping = {k: v for k, v in zip(gen, fn["gargs"]) if k != v and re.match(r"^[A-Za-z_]\w*$", k)}
+                        if mapping:
+                            instantiate(b, loff, boff, mapping)
+                            for st_ in pro:
+                                if isinstance(st_.get("p"), dict) and isinstance(st_["p"].get("ty"), str):
+                                    st_["p"]["ty"] = b["locals"][st_["p"]["l"]]["ty"]
                     b["blocks"][bi]["stmts"] += pro
                     b["blocks"][bi]["term"] = goto(entry)
                     log.append("%s: call to new helper %s spliced in" % (b["path"], g["path"]))
@@ -1142,6 +1493,56 @@ def resolve_named_consts(data, log):
         if len(st) == 1 and st[0]["k"] == "assign" and st[0]["p"]["l"] == 0 and not st[0]["p"]["pr"] and st[0]["rv"]["k"] == "agg" \
                 and st[0]["rv"].get("ak") == "array" and all(o["k"] == "const" for o in st[0]["rv"]["ops"]) and b["blocks"][0]["term"]["k"] == "return":
             arrs[b["path"]] = st[0]["rv"]
+    # arrays whose elements are built first (`const KINDS: [Target; 3] = [Target::A, Target::B, ..]`: one temporary per element, each a field-less variant or
+    # a literal, then the array of them): a statement `x = NAME` becomes the same temporaries followed by `x = [..]`
+    built = {}
+    for b in data["bodies"]:
+        if not str(b.get("kind", "")).startswith("Const") or len(b["blocks"]) != 1 or b["arg_count"] != 0 or b["path"] in arrs:
+            continue
+        st = b["blocks"][0]["stmts"]
+        if len(st) < 2 or b["blocks"][0]["term"]["k"] != "return":
+            continue
+        last = st[-1]
+        if not (last["k"] == "assign" and last["p"]["l"] == 0 and not last["p"]["pr"] and last["rv"]["k"] == "agg" and last["rv"].get("ak") == "array"):
+            continue
+        elems = {}
+        ok = True
+        for e in st[:-1]:
+            if e["k"] in ("storage_live", "storage_dead", "nop", "live", "dead"):
+                continue
+            if not (e["k"] == "assign" and not e["p"]["pr"] and e["p"]["l"] not in elems and
+                    ((e["rv"]["k"] == "agg" and e["rv"].get("ak") == "adt" and not e["rv"]["ops"]) or (e["rv"]["k"] == "use" and e["rv"]["o"]["k"] == "const"))):
+                ok = False
+                break
+            elems[e["p"]["l"]] = e
+        ops = last["rv"]["ops"]
+        if not ok or not all(o["k"] in ("move", "copy") and not o["p"]["pr"] and o["p"]["l"] in elems for o in ops) or len(set(o["p"]["l"] for o in ops)) != len(ops):
+            continue
+        built[b["path"]] = ([elems[o["p"]["l"]] for o in ops], last["rv"], [b["locals"][o["p"]["l"]]["ty"] for o in ops])
+    nb = 0
+    if built:
+        for b in data["bodies"]:
+            for blk in b["blocks"]:
+                i = 0
+                while i < len(blk["stmts"]):
+                    st = blk["stmts"][i]
+                    if st["k"] == "assign" and st["rv"]["k"] == "use" and st["rv"]["o"]["k"] == "const" and st["rv"]["o"].get("disp") in built \
+                            and "str" not in st["rv"]["o"] and "int" not in st["rv"]["o"] and "fn" not in st["rv"]["o"]:
+                        elems, arr, tys = built[st["rv"]["o"]["disp"]]
+                        pre, ops = [], []
+                        for e, ty in zip(elems, tys):
+                            nl = new_local(b, ty)
+                            pre.append(assign(P(nl, ty=ty), copy.deepcopy(e["rv"]), st["loc"]))
+                            ops.append(mv(nl, ty))
+                        rv = copy.deepcopy(arr)
+                        rv["ops"] = ops
+                        st["rv"] = rv
+                        blk["stmts"][i:i] = pre
+                        i += len(pre)
+                        nb += 1
+                    i += 1
+        if nb:
+            log.append("%d use(s) of named constant arrays of field-less variants replaced by the array literal" % nb)
     na = 0
     if arrs:
         for b in data["bodies"]:
@@ -1586,6 +1987,108 @@ def unmerge_or_patterns(b, log):
         log.append("%s: %d or-pattern arm(s) with bindings split into one body per alternative" % (b["path"], done))
 
 
+def unmerge_match_values(b, log):
+    """`let x = match n { A(P(b)) => *b, B(Q(b)) => *b, _ => continue };` — every arm binds out of its own variant, derives the same local from the
+    binding (a move out of the box, a reference, a field) and the arms meet again, possibly after dropping the emptied box. As for or-patterns, every
+    arm gets its own copy of the code that follows, so that what follows speaks about one variant at a time"""
+    limit = 3 * len(b["blocks"]) + 200
+    done = 0
+    progress = True
+    while progress and len(b["blocks"]) < limit and done < 50:
+        progress = False
+        preds = {}
+        live, work = set(), [0]
+        while work:
+            x = work.pop()
+            if x in live or x >= len(b["blocks"]) or b["blocks"][x].get("cleanup") or b["blocks"][x]["term"] is None:
+                continue
+            live.add(x)
+            work += succs(b["blocks"][x])
+        for i, blk in enumerate(b["blocks"]):
+            if i not in live:
+                continue
+            for t in succs(blk):
+                preds.setdefault(t, []).append(i)
+        for j, ps in sorted(preds.items()):
+            if len(ps) < 2 or len(set(ps)) != len(ps) or b["blocks"][j].get("cleanup"):
+                continue
+            chains, bounds = [], []
+            for p in ps:
+                chain = [p]
+                cur = p
+                ok = True
+                while not b["blocks"][cur]["stmts"]:
+                    rs = preds.get(cur, [])
+                    if len(rs) != 1 or b["blocks"][rs[0]]["term"]["k"] not in ("goto", "drop") or rs[0] in chain or len(chain) > 4:
+                        ok = False
+                        break
+                    cur = rs[0]
+                    chain.insert(0, cur)
+                q = b["blocks"][cur]
+                if not ok or q.get("cleanup") or q["term"]["k"] not in ("goto", "drop") or any(len(preds.get(x, [])) != 1 for x in chain[1:]):
+                    chains = None
+                    break
+                bound = []
+                for st in q["stmts"]:
+                    if st["k"] != "assign" or st["p"]["pr"]:
+                        bound = None
+                        break
+                    rv = st["rv"]
+                    src = rv["o"]["p"] if rv["k"] == "use" and rv["o"]["k"] in ("move", "copy") else (rv["p"] if rv["k"] == "ref" else None)
+                    if src is None or not (any(isinstance(e, dict) and "dc" in e for e in src["pr"]) or src["l"] in bound):
+                        bound = None
+                        break
+                    bound.append(st["p"]["l"])
+                if not bound or not any(any(isinstance(e, dict) and "dc" in e for e in ((st["rv"].get("o") or {}).get("p") or st["rv"].get("p") or {"pr": []})["pr"]) for st in q["stmts"]):
+                    chains = None
+                    break
+                chains.append(chain)
+                bounds.append(bound)
+            if not chains:
+                continue
+            common = set(bounds[0])
+            for bd in bounds[1:]:
+                common &= set(bd)
+            flat = [x for c in chains for x in c]
+            if not common or len(set(flat)) != len(flat) or all(tuple(bd) == tuple(bounds[0]) and len(c) == 1 for bd, c in zip(bounds, chains)):
+                continue  # (the plain or-pattern shape is unmerge_or_patterns' business)
+            region = dominated(b, j)
+            if j not in region or len(region) > 400:
+                continue
+            inside = set(region) | set(flat)
+            used_in, used_out = set(), set()
+            for i, blk in enumerate(b["blocks"]):
+                if blk.get("cleanup") or blk["term"] is None:
+                    continue
+                acc = set()
+                locals_in(blk["stmts"], acc)
+                locals_in(blk["term"], acc)
+                (used_in if i in inside else used_out).update(acc)
+            private = set(l for l in used_in - used_out if l > b["arg_count"])
+            if not common <= private:
+                continue
+            order = sorted(region)
+            for chain in chains[1:]:
+                lmap = {}
+                for l in sorted(private):
+                    b["locals"].append(copy.deepcopy(b["locals"][l]))
+                    lmap[l] = len(b["locals"]) - 1
+                bmap = {x: len(b["blocks"]) + k for k, x in enumerate(order)}
+                for x in order:
+                    b["blocks"].append(rename(b["blocks"][x], lmap, bmap))
+                for x in chain:
+                    nb = rename(b["blocks"][x], lmap, {})
+                    b["blocks"][x]["stmts"] = nb["stmts"]
+                    b["blocks"][x]["term"] = nb["term"]
+                last = b["blocks"][chain[-1]]["term"]
+                last["t"] = bmap[j]
+            done += 1
+            progress = True
+            break
+    if done:
+        log.append("%s: %d match(es) whose arms bind out of different variants and meet again split into one continuation per arm" % (b["path"], done))
+
+
 # ------------------------------------------------------------------ driver
 
 
@@ -1616,9 +2119,16 @@ def preprocess(data, known=None, known_uses=None):
         guarded("jump threading", thread_bool_jumps, b, log)
         if b["path"] not in KNOWN_ORPAT:
             guarded("or-pattern splitting", unmerge_or_patterns, b, log)
+        if b["path"] not in KNOWN_ORPAT and b["path"] not in KNOWN_MATCHVAL:
+            guarded("match value splitting", unmerge_match_values, b, log)
+    r = guarded("lazy statics", lambda d_: lazy_statics(d_, bodies, log), data)
+    if r:
+        spliced_closures |= r
     # phase 2: closures are spliced into their users, innermost closures first so that what is spliced is already normalised
     for b in sorted(todo, key=lambda b_: -b_["path"].count("{closure#")):
+        guarded("diverging unwrap_or_else", diverging_unwrap_or_else, b, bodies, log)
         for what, fn_ in (("bool::then desugaring", lambda b_: desugar_bool_then(b_, bodies, log)),
+                          ("retain desugaring", lambda b_: desugar_retain(b_, bodies, known_uses, log)),
                           ("Option combinator desugaring", lambda b_: desugar_option_combinators(b_, bodies, known_uses, log)),
                           ("adaptor desugaring", lambda b_: desugar_body(b_, bodies, known_uses, log))):
             r = guarded(what, fn_, b)
@@ -1698,7 +2208,22 @@ def write_known(facts, path=KNOWN_FILE):
             unmerge_or_patterns(copy.deepcopy(b), lg)
             if lg:
                 orp.add(b["path"])
-    json.dump({"comment": "function inventory of the reference tree (rules are anchored on these names); closure-taking calls of the reference tree; "
+    mvf = set()
+    for c in facts.values():
+        for b in c["bodies"]:
+            if b.get("derived"):
+                continue
+            b2, lg = copy.deepcopy(b), []
+            try:
+                rewrite_idioms(b2, []); desugar_try(b2, []); thread_bool_jumps(b2, [])
+                if b2["path"] not in orp:
+                    unmerge_or_patterns(b2, [])
+                unmerge_match_values(b2, lg)
+            except Exception:
+                lg = ["?"]
+            if lg:
+                mvf.add(b["path"])
+    json.dump({"match_value_fns": sorted(mvf), "comment": "function inventory of the reference tree (rules are anchored on these names); closure-taking calls of the reference tree; "
                           "functions of the reference tree with variable-binding or-patterns",
                "functions": sorted(fns), "closure_uses": sorted(list(u) for u in uses), "or_pattern_fns": sorted(orp), "plain_collects": sorted(plain), "plain_extends": sorted(pext),
                "dormant_comment": "helpers without a caller in the reference tree and not named by any rule: if a change starts calling one it is treated like a new helper",
